@@ -794,10 +794,10 @@ def zero_guard_table(fb, fname="<values::Number as std::ops::Div>::div"):
             def symcmp(op, x, y, pc=pc, k=k, schedule=schedule):
                 cf, cb = absint.CUR_F[0], absint.CUR_B[0]
                 term = cf.blocks[cb]["term"] if cf is not None and cb is not None else {}
-                if term.get("k") == "assert" and term.get("kind") in ("DivisionByZero", "RemainderByZero") and op == "eq":
+                if term.get("k") == "assert" and term.get("kind") in ("DivisionByZero", "RemainderByZero") and op == "eq" and absint.in_assert_condition():
                     obligations.append(((ka, kb), x if isinstance(x, Sym) else y, list(pc), term["kind"], frozenset(dens), cf.name))
                     return bool(term.get("expected"))             # go on as the program does when the assertion holds
-                if term.get("k") == "assert":
+                if term.get("k") == "assert" and absint.in_assert_condition():
                     return bool(term.get("expected"))             # overflow assertions: not this table's subject
                 i = k[0]
                 k[0] += 1
@@ -899,7 +899,7 @@ def exact_arith_table(fb, fname, n_tests=7):
             def symcmp(op, x, y, pc=pc, k=k, schedule=schedule):
                 cf, cb = absint.CUR_F[0], absint.CUR_B[0]
                 term = cf.blocks[cb]["term"] if cf is not None and cb is not None else {}
-                if term.get("k") == "assert":
+                if term.get("k") == "assert" and absint.in_assert_condition():
                     return bool(term.get("expected"))
                 i = k[0]
                 k[0] += 1
@@ -1131,7 +1131,7 @@ def kind_cmp_table(fb, fname, n_tests=5):
             def symcmp(op, x, y):
                 cf, cb = absint.CUR_F[0], absint.CUR_B[0]
                 term = cf.blocks[cb]["term"] if cf is not None and cb is not None else {}
-                if term.get("k") == "assert":
+                if term.get("k") == "assert" and absint.in_assert_condition():
                     return bool(term.get("expected"))
                 return sched((op, x, y))
             mc = Machine(fb, intercept=icpt, max_visits=4, budget=400)
@@ -1390,7 +1390,7 @@ def real_arith_table(fb, fname, kinds, n_tests=5):
             def symcmp(op, x, y):
                 cf, cb = absint.CUR_F[0], absint.CUR_B[0]
                 term = cf.blocks[cb]["term"] if cf is not None and cb is not None else {}
-                if term.get("k") == "assert":
+                if term.get("k") == "assert" and absint.in_assert_condition():
                     return bool(term.get("expected"))
                 return sched((op, x, y))
             mc = Machine(fb, intercept=icpt, max_visits=4, budget=500)
@@ -1575,7 +1575,7 @@ def chain_table(fb, name, kinds, n_tests=4):
         def symcmp(op, x, y):
             cf, cb = absint.CUR_F[0], absint.CUR_B[0]
             term = cf.blocks[cb]["term"] if cf is not None and cb is not None and cb < len(cf.blocks) else {}
-            if term.get("k") == "assert":
+            if term.get("k") == "assert" and absint.in_assert_condition():
                 return bool(term.get("expected"))
             return sched((op, x, y))
         mc = Machine(fb, intercept=icpt, max_visits=len(kinds) + 4, budget=900)
